@@ -129,6 +129,7 @@ func drawProgram(t *rapid.T) *pkgProg {
 	}
 	// the calls of p sit in one to three files (which file is parsed first is up to the loader)
 	p.SplitCalls = rapid.IntRange(1, 3).Draw(t, "callfiles")
+	p.RenameSplit = p.SplitCalls > 1 && rapid.Bool().Draw(t, "renamesplit")
 	files := p.Files()
 	// package q imports p and has derive calls of its own over p's types
 	var qs strings.Builder
